@@ -81,6 +81,8 @@ class Combiner(Node):
         self.time_per_work_occupancy = [0.0 for _ in range(self.work_capacity+1)]  # Time spent by each worker thread
         self.stats={"total_time_spent_in_states": {"SETUP_STATE": 0.0, "IDLE_STATE":0.0, "PROCESSING_STATE": 0.0,"BLOCKED_STATE":0.0 },
                     "last_state_change_time": None, "num_item_processed": 0, "num_item_discarded": 0,"processing_delay":[],"out_edge_selection":[]}
+        # the set-up period starts now; its duration is charged to SETUP_STATE at the first state change
+        self.stats["last_state_change_time"] = self.env.now
        
      
         
